@@ -1,4 +1,6 @@
 import MpfVerif.Lemmas.RulesCoils
+import MpfVerif.Lemmas.RulesContent
+import MpfVerif.Lemmas.RulesGen
 /-!
 # C10 — hardware switch-to-coil rules match the enabled devices exactly
 
@@ -162,6 +164,56 @@ theorem no_coil_energised_when_disabled (c : Cfg) (ops : List Op) :
   rw [hall i f hi hk] at hen
   exact Bool.noConfusion hen
 
+/-- **rule_content_exact**: the rules carry exactly the configured settings.  `effTable` is the platform table as written:
+every row with its settings `[invert, debounce, pulse ms, pulse power, hold power, recycle, delay, hardware repulse, repulse
+debounce]` as `AutofireCoil.enable` / the `Flipper._enable_*_rule` methods select them from the overwrites and the defaults
+(`autofireEntry`, `flipperSpecs`), a power-scaled pulse being the base times the flipper power setting *sampled when the device
+was enabled* (`DSt.factor`; a later change of the setting does not rewrite the rule - as in the code).  In every reachable state
+each rule of an enabled device is in the table with exactly these settings, and every row is such a rule. -/
+theorem rule_content_exact (c : Cfg) (hw : WF c) (ops : List Op) :
+    (∀ i, i < c.n → ((run c init ops).devs i).enabled = true → ∀ e ∈ entriesOf (c.dev i),
+      scaleEntry ((run c init ops).devs i).factor e ∈ effTable c (run c init ops)) ∧
+    (∀ r ∈ effTable c (run c init ops), ∃ i, i < c.n ∧ ((run c init ops).devs i).enabled = true ∧
+      ∃ e ∈ entriesOf (c.dev i), r = scaleEntry ((run c init ops).devs i).factor e) := by
+  have h := inv_run hw ops init (inv_init c)
+  generalize run c init ops = s at h
+  constructor
+  · intro i hi hen e he
+    rw [mem_effTable]
+    exact ⟨e, h.complete i hi hen e he, by rw [ownerFactor_eq hw s i hi hen e he c.n hi (Nat.le_refl _)]⟩
+  · intro r hr
+    rw [mem_effTable] at hr
+    obtain ⟨e, he, rfl⟩ := hr
+    obtain ⟨i, hi, hen, hei⟩ := h.sound e he
+    exact ⟨i, hi, hen, e, hei, by rw [ownerFactor_eq hw s i hi hen e hei c.n hi (Nat.le_refl _)]⟩
+
+
+/-- **eos_manager_refines_source**: the five handlers of `SoftwareEosRepulseManager` as *translated from the source*
+(`Gen/RulesOps.lean`, regenerated on every check) do to the model state exactly what the hand model does: button pressed /
+released (`fswDev … 0`), EOS closed for the debounce time (`fireEos`), EOS opened (`fswDev … 1 false`: repulse when the button
+is held and the EOS was closed long enough - enable + `_enabled_by_repulse` with hold settings, a pulse without), and `stop()`
+(the coil a repulse enabled is released, the flag cleared).  So `no_coil_energised_when_disabled` speaks about the source's
+handlers: a change such as clearing `_enabled_by_repulse` when the EOS has closed again no longer type-checks here. -/
+theorem eos_manager_refines_source (c : Cfg) (s : St) (i : Nat) (f : FCfg) (hk : (c.dev i).kind = .flipper f)
+    (hen : (s.devs i).enabled = true) (hm : hasManager f = true) :
+    ((s.devs i).actOn = false →
+      RulesGen.applyMgr f i (upd s i { s.devs i with actOn := true })
+        (RulesGen.genMgr f (s.devs i) Gen.RulesOps.mgr_button_active) = some (fswDev c s i 0 true)) ∧
+    ((s.devs i).actOn = true →
+      RulesGen.applyMgr f i (upd s i { s.devs i with actOn := false })
+        (RulesGen.genMgr f (s.devs i) Gen.RulesOps.mgr_button_inactive) = some (fswDev c s i 0 false)) ∧
+    (isDue (s.devs i).eosDue s.now = true →
+      RulesGen.applyMgr f i (upd s i { s.devs i with eosDue := none })
+        (RulesGen.genMgr f (s.devs i) Gen.RulesOps.mgr_eos_closed_long_enough) = some (fireEos s i)) ∧
+    ((s.devs i).eosOn = true →
+      RulesGen.applyMgr f i (upd s i { s.devs i with eosOn := false, eosSince := s.now, eosDue := none })
+        (RulesGen.genMgr f (s.devs i) Gen.RulesOps.mgr_repulse_on_eos_open) = some (fswDev c s i 1 false)) ∧
+    RulesGen.applyMgr f i s (RulesGen.genMgr f (s.devs i) Gen.RulesOps.mgr_stop) =
+      some (if (s.devs i).repOn then coilOff (upd s i { s.devs i with repOn := false }) f.main else s) :=
+  ⟨RulesGen.button_active_refines c s i f hk hen hm, RulesGen.button_inactive_refines c s i f hk hen hm,
+   RulesGen.eos_closed_long_enough_refines s i f, RulesGen.repulse_on_eos_open_refines c s i f hk hen hm,
+   RulesGen.stop_refines s i f⟩
+
 /-! ## the hypotheses are satisfiable: a dual-wound flipper with EOS switch and software repulse, an autofire with
 timeout protection and a kickback that disables itself on its fired event -/
 
@@ -182,5 +234,28 @@ example : ((run exCfg init [.ev 0, .hit 1, .hit 1, .hit 2, .ev 1, .advance 500])
 example : enables exCfg 1 (.advance 500) = false ∧ enables exCfg 1 (.hit 2) = false := by decide
 /-- software flip energises the hold coil of the dual-wound flipper; ball_will_end releases it -/
 example : (run exCfg init [.ev 0, .swFlip 0]).on = [1] ∧ (run exCfg init [.ev 0, .swFlip 0, .ev 1]).on = [] := by decide +kernel
+
+/-! ### software EOS repulse: the coil a repulse enabled stays owed to the flipper when the EOS closes again, and is released
+when the flipper is disabled (the round-8 seeded change cleared the flag on the second closure) -/
+def eosCfg : Cfg :=
+  ⟨1, fun _ => { kind := .flipper { act := some 0, eos := some 1, main := 0, repulse := true, eosMs := 250, mainDefHold := some 125 },
+                 enEv := [0], disEv := [1] }⟩
+
+example : (run eosCfg init [.enable 0, .fsw 0 0 true, .fsw 0 1 true, .advance 500, .fsw 0 1 false]).on = [0] := by decide +kernel
+example : (run eosCfg init [.enable 0, .fsw 0 0 true, .fsw 0 1 true, .advance 500, .fsw 0 1 false, .fsw 0 1 true, .advance 500]).on = [0] ∧
+    ((run eosCfg init [.enable 0, .fsw 0 0 true, .fsw 0 1 true, .advance 500, .fsw 0 1 false, .fsw 0 1 true, .advance 500]).devs 0).eosLong = true := by decide +kernel
+example : (run eosCfg init [.enable 0, .fsw 0 0 true, .fsw 0 1 true, .advance 500, .fsw 0 1 false, .fsw 0 1 true, .advance 500, .ev 1]).on = [] := by decide +kernel
+
+
+/-- rule content: an autofire with reversed NC switch, overwrites and a delayed pulse; a flipper whose pulse follows the power
+setting sampled at enable (10 ms × 0.8), not the later 1.2 -/
+def contCfg : Cfg :=
+  ⟨2, fun i =>
+    if i = 0 then { kind := .autofire { sw := 2, coil := 0, reverse := true, owDeb := some true, defRecycle := some false,
+                                         owPulse := some 30, defPulse := 20, owPower := some 500, delay := 50 } }
+    else { kind := .flipper { act := some 0, main := 2, power := true, mainDefHold := some 125 } }⟩
+example : (effTable contCfg (run contCfg init [.enable 0])) = [⟨2, 0, 5, [1, 1, 30, 500, 0, 0, 50, 0, 0], false⟩] := by decide +kernel
+example : ((effTable contCfg (run contCfg init [.setting 800, .enable 1, .setting 1200])).map Entry.cont) =
+    [[0, 0, 8, 1000, 126, 0, 0, 0, 0]] := by decide +kernel
 
 end MpfVerif.C10
